@@ -10,6 +10,7 @@ type checkFn func(*Ctx) (string, []string)
 
 var registry = map[string]checkFn{
 	"C04": checkC04,
+	"C05": checkC05,
 	"C06": checkC06,
 	"C07": checkC07,
 	"C08": checkC08,
